@@ -11,8 +11,18 @@ def run(name, harness, flavour, quick, thorough, sq=4, st=16, **kw):
     """One engine run of a check: harness/<harness>.cc built in sanitizer flavour `flavour`,
     `quick`/`thorough` cases split over sq/st shard processes.  Optional keys: need_lib=False for
     header-only targets, params={k:v} (passed as --param), tier_params={tier:{k:v}}, env={...},
-    tiers=("thorough",) to restrict, timeout={tier: seconds}, cxxflags=[...], sources=[...]."""
+    tiers=("thorough",) to restrict, timeout={tier: seconds}, cxxflags=[...], sources=[...],
+    wrapper="memcheck" (run the executable under valgrind memcheck; use flavour "plain")."""
     r = {"name": name, "harness": harness, "sources": ["harness/%s.cc" % harness], "flavour": flavour,
          "cases": {"quick": quick, "thorough": thorough}, "shards": {"quick": sq, "thorough": st}}
     r.update(kw)
     return r
+
+
+def memcheck(harness, quick, thorough, **kw):
+    """The same harness, uninstrumented, under valgrind memcheck on a reduced case budget: reports every branch
+    or address that depends on a value nobody initialised (which ASan/UBSan do not see) as a violation key
+    memcheck:<kind>/<innermost SDK function>."""
+    kw.setdefault("sq", 2)
+    kw.setdefault("st", 8)
+    return run(kw.pop("name", "memcheck"), harness, "plain", quick, thorough, wrapper="memcheck", **kw)
